@@ -803,10 +803,10 @@ def run(tier, seed):
     # ---- verdict ------------------------------------------------------------------------------
     for sig, desc, replay in oracle_fail[:8]:
         R.violation(sig, desc, replay)
-    if proof_broken and not R.violations and not R.known_hit:
+    if proof_broken and not R.violations:
         R.violation('proof-broken', 'Coq proof stage failed',
                     {'no_failing_input_found': True, 'theorem_or_correspondence': f'Props/{CID}.v', 'log': P['log'][-3000:]})
-    if mismatches and not R.violations and not R.known_hit:
+    if mismatches and not R.violations:
         R.violation('correspondence-broken', 'model and implementation disagree (no Appendix-B violation exhibited)',
                     {'no_failing_input_found': True, 'theorem_or_correspondence': 'correspondence mlref_mm15 vs converter._import_proof',
                      'first_mismatches': [repr(x)[:1500] for x in mismatches[:5]]})
